@@ -18,6 +18,7 @@ OWNERS = ("janet_stream", "janet_stream_ext", "make_stream", "fdopen", "janet_ma
           # the descriptor number travels inside a marshalled message to the receiving thread, which wraps it in a stream
           "janet_marshal_int", "janet_marshal_int64")
 CLOSERS = ("close", "closesocket", "fclose")
+OWNS_ON_SUCCESS = ("fdopen", "_fdopen")
 
 
 def _key(n):
@@ -80,7 +81,7 @@ class FdAnalysis(object):
 
         def open_fact(facts, k, nid):
             old = [f for f in facts if f[0] == "open" and f[1] == k]
-            keep = frozenset(f for f in facts if not (f[0] in ("open",) and f[1] == k))
+            keep = frozenset(f for f in facts if not (f[0] in ("open", "given") and f[1] == k))
             if old:
                 keep = keep | frozenset([("lost", k, old[0][2])])
             return keep | frozenset([("open", k, nid)])
@@ -119,11 +120,20 @@ class FdAnalysis(object):
                                 facts = facts - frozenset([f])
                         if _key(n.args[i]) in params:
                             info["closes"].add(params.index(_key(n.args[i])))
+            if c in S.closers:
+                # closing a descriptor this function has already handed to an owner: the owner closes it again later
+                for a in n.args:
+                    for f in list(facts):
+                        if f[0] == "given" and _key(a) == f[1]:
+                            facts = (facts - frozenset([f])) | frozenset([("twice", f[1], f[2], n.id)])
             if c in S.closers or c in S.owners:
                 for a in n.args:
                     for f in list(facts):
                         if f[0] == "open" and _uses(a, f[1]):
                             facts = facts - frozenset([f])
+                            if c in S.owners:
+                                # fdopen owns the descriptor only when it succeeds: remember where its result went
+                                facts = facts | frozenset([("given", f[1], f[2], target if c in OWNS_ON_SUCCESS else None)])
                             pk = f[1]
                             if pk in params:
                                 (info["closes"] if c in S.closers else info["owns"]).add(params.index(pk))
@@ -235,6 +245,11 @@ class FdAnalysis(object):
                 if (other, pv, 0) in facts:
                     return None
                 facts = facts | frozenset([(want, pv, 0)])
+            if pv is not None and op == "==":
+                # the owner call failed (NULL result): the descriptor is still ours
+                for f in list(facts):
+                    if f[0] == "given" and f[3] == pv:
+                        facts = (facts - frozenset([f])) | frozenset([("open", f[1], f[2])])
             for f in list(facts):
                 if f[0] != "open":
                     continue
@@ -311,6 +326,11 @@ class FdAnalysis(object):
                                 reported.add((f[2], n.id))
                                 findings.append((f[2], f[1], "raise" if n.k == "call" else "return", n))
                 Sx = T(Sx, n)
+                for s in Sx:
+                    for f in s:
+                        if f[0] == "twice" and (f[2], "twice", f[3]) not in reported:
+                            reported.add((f[2], "twice", f[3]))
+                            findings.append((f[2], f[1], "twice", fn.nodes[f[3]]))
                 for s in Sx:
                     for f in s:
                         if f[0] == "lost" and (f[2], "lost") not in reported:
@@ -398,6 +418,12 @@ def run(chk, prog):
                 if how == "overwritten":
                     chk.violation(RULE, fn.tu.name, fn.name, "%s:overwritten" % var, src.loc,
                                   "descriptor `%s` obtained at line %d is overwritten by a new one while still open" % (var, src.ln))
+                elif how == "twice":
+                    chk.violation(RULE, fn.tu.name, fn.name, "%s:closed-after-handover@%s" % (var, via), node.loc,
+                                  "descriptor `%s` obtained at line %d (%s) was handed to an owner that closes it when it is finalised, and is "
+                                  "closed here as well (`%s`): the number may have been reused by then and the owner's close hits somebody "
+                                  "else's descriptor" % (var, src.ln, desc, node.text()[:40]),
+                                  ["acquire %s: %s" % (src.loc, src.text()[:80]), "close   %s: %s" % (node.loc, node.text()[:80])])
                 elif how == "end":
                     chk.violation(RULE, fn.tu.name, fn.name, "%s:end" % var, src.loc,
                                   "descriptor `%s` obtained at line %d is still open and unowned at the end of the function" % (var, src.ln))
